@@ -2,9 +2,12 @@
   Driver for the rekey-with-traffic-in-flight model (C11).  Request: `run <ev>…` with events
     start | in:<kind> | user:<type> | pk (peer KEXINIT) | kr (our engine finished → NEWKEYS) | pn (peer NEWKEYS)
   kinds: data extdata window eof chanreq globreq reply globreq-reply chanopen close chanreq-reply
-  reply: <dead 0/1> <connection-layer types written inside the kex window, csv|-> <wire csv|-> <parked csv|->
+  and `lock <underLock 0/1> <userType> <inbox: h1|h0|pk|kr|pn …> / <schedule: u|t …>` (Channel.lock model)
+       → <finished 0/1> <stuck 0/1: neither thread can move> <wire csv>
+  reply of run: <dead 0/1> <connection-layer types written inside the kex window, csv|-> <wire csv|-> <parked csv|->
 -/
 import PV.Model.RekeyFlight
+import PV.Model.RekeyLock
 import PV.Base.DriverIO
 open PV PV.RekeyFlight
 
@@ -24,8 +27,27 @@ def parseEv (t : String) : Option Ev :=
 
 def csv (l : List Nat) : String := if l.isEmpty then "-" else ",".intercalate (l.map toString)
 
+def parseTMsg : String → Option RekeyLock.TMsg
+  | "h1" => some (.handler true) | "h0" => some (.handler false)
+  | "pk" => some .peerKexinit | "kr" => some .kexReply | "pn" => some .peerNewkeys | _ => none
+
+def parseTid : String → Option RekeyLock.Tid
+  | "u" => some .user | "t" => some .transport | _ => none
+
+def lockLine (ul ut : String) (rest : List String) : String :=
+  let inboxToks := rest.takeWhile (· != "/")
+  let schedToks := (rest.dropWhile (· != "/")).drop 1
+  match ul.toNat?, ut.toNat?, inboxToks.mapM parseTMsg, schedToks.mapM parseTid with
+  | some ul, some ut, some inbox, some sched =>
+    let s := RekeyLock.run { underLock := ul == 1, userType := ut, inbox := inbox } sched
+    let fin := decide (RekeyLock.finished s)
+    let stuck := !fin && RekeyLock.stepUser s == s && RekeyLock.stepTransport s == s
+    s!"{if fin then 1 else 0} {if stuck then 1 else 0} {csv s.wire}"
+  | _, _, _, _ => "bad-op"
+
 def stepLine (line : String) : String :=
   match words line with
+  | "lock" :: ul :: ut :: rest => lockLine ul ut rest
   | "run" :: evs =>
     match evs.mapM parseEv with
     | some evs =>
